@@ -245,3 +245,72 @@ def c_rotate(ctx, it, cfg):
 def arr_sel(d, idx):
     from kvc.arr import _sel_nd
     return _sel_nd(d, (3, 3, 3, 3), idx)
+
+
+@REG.contract('Dijkl/size-invariance', [EF + ':EllipsoidalEnergyDescription.Dijkl', EF + ':EllipsoidalEnergyDescription.sphInt', EF + ':EllipsoidalEnergyDescription._n'],
+              configs=[dict(name='grid-points=1', g=1), dict(name='grid-points=2', g=2, tier='thorough', weight=50)])
+def c_dijkl_scale(ctx, it, cfg):
+    """D_ijkl of an ellipsoid does not change when all three semi-axes are scaled by the same factor (degree 0), so the strain energy scales with the volume
+    (cube of the size).  Modular: the radius function is replaced by its proved contract (homogeneous of degree 1, positive), the Christoffel inverse by arbitrary values."""
+    d = new_obj(it, EF, 'EllipsoidalEnergyDescription')
+    g = cfg['g']
+    d.fields['midPhiGrid'] = NP.array([real(ctx, 'phi%d' % k) for k in range(g)])
+    d.fields['midThetaGrid'] = NP.array([real(ctx, 'theta%d' % k) for k in range(g)])
+    d.fields['midWeights'] = NP.array([real(ctx, 'wgt%d' % k) for k in range(g)])
+    d.fields['dA'] = real(ctx, 'dA')
+    ohm = NP.array([[[real(ctx, 'ohm%d%d_%d' % (i, j, k)) for k in range(g)] for j in range(3)] for i in range(3)])
+    d.fields['_ohm_inverse'] = lambda mm: ohm
+    lam = real(ctx, 'scale', lambda v: v > 0)
+    B0 = [real(ctx, 'beta%d' % k, lambda v: v > 0) for k in range(g)]
+    calls = []
+
+    def beta(a, b, c, phi, theta):
+        calls.append((a, b, c))
+        if len(calls) == 1:
+            return NP.array(list(B0))
+        a0, b0, c0 = calls[0]
+        ctx.prove('second-evaluation-is-the-scaled-ellipsoid', and_(eq(a, lam * a0), eq(b, lam * b0), eq(c, lam * c0)))
+        return NP.array([lam * x for x in B0])                      # contract of _beta: homogeneous of degree 1 (proved in _ohm_quickInverse/(c))
+    d.fields['_beta'] = beta
+    c2, v = sym66(ctx, 'c', symmetric=True)
+    c4 = it.load(EF).env['convert2To4rankTensor'](c2)
+    r = [real(ctx, nm, lambda q: q > 0) for nm in ('ra', 'rb', 'rc')]
+    D1 = d.Dijkl(NP.array(r), c4)
+    D2 = d.Dijkl(NP.array([lam * x for x in r]), c4)
+    ctx.prove('shape', tuple(D1.shape) == (3, 3, 3, 3) and tuple(D2.shape) == (3, 3, 3, 3))
+    for ix in [(0, 0, 0, 0), (0, 1, 0, 1), (0, 1, 1, 2), (2, 2, 1, 1), (1, 2, 2, 0), (2, 0, 0, 2)]:
+        ctx.prove('D%d%d%d%d-unchanged-by-uniform-scaling' % ix, eq(D2.get(*ix), D1.get(*ix)))
+    ctx.prove('canary/D-is-zero', eq(D1.get(0, 0, 0, 0), 0), expect='refuted')
+
+
+@REG.contract('strainEnergyBohm2ndRank/formula', [EF + ':EllipsoidalEnergyDescription.strainEnergyBohm2ndRank', EF + ':convert4To2rankTensor', EF + ':convert2rankToVec'])
+def c_bohm2(ctx, it, cfg):
+    """6x6 route for an inhomogeneous inclusion: E = -V/2 * e . C_M (S - I) X e  with  X = [(C_P - C_M) S + C_M]^-1 C_P  (Eshelby's equivalent inclusion);
+    the Eshelby tensor S and the inverse are arbitrary/opaque here -- what is decided is that the code assembles exactly this expression"""
+    m = it.load(EF).env
+    d = new_obj(it, EF, 'EllipsoidalEnergyDescription')
+    cM2, _ = sym66(ctx, 'cm', symmetric=True)
+    cP2, _ = sym66(ctx, 'cp', symmetric=True)
+    S2, _ = sym66(ctx, 's', symmetric=False)
+    e = {}
+    for i in range(3):
+        for j in range(i, 3):
+            e[(i, j)] = e[(j, i)] = real(ctx, 'eps%d%d' % (i, j))
+    eig = NP.array([[e[(i, j)] for j in range(3)] for i in range(3)])
+    P = type('Params', (), {})()
+    P.cMatrix_4th, P.cMatrix_2nd, P.cPrec_2nd, P.eigenstrain = m['convert2To4rankTensor'](cM2), cM2, cP2, eig
+    d.fields['params'] = P
+    S4 = m['convert2To4rankTensor'](S2)
+    d.fields['Dijkl'] = lambda radius, c4: 'D'
+    d.fields['Sijmn'] = lambda D: S4
+    r = [real(ctx, nm, lambda q: q > 0) for nm in ('ra', 'rb', 'rc')]
+    E = d.strainEnergyBohm2ndRank(NP.array(r))
+    V = 4 * NP.pi / 3 * r[0] * r[1] * r[2]
+    Sback = m['convert4To2rankTensor'](S4)
+    A = NP.matmul(cP2 - cM2, Sback) + cM2
+    X = NP.matmul(NP.linalg.inv(A), cP2)
+    ev = m['convert2rankToVec'](eig)
+    inner = NP.matmul(cM2, NP.matmul(NP.matmul(Sback, X), ev)) - NP.matmul(cM2, NP.matmul(X, ev))
+    want = -V / 2 * sum((ev.get(i) * inner.get(i) for i in range(6)), 0)
+    ctx.prove('energy = -V/2 e.(C_M (S - I) [(C_P - C_M) S + C_M]^-1 C_P e)', eq(E, want))
+    ctx.prove('canary/energy-is-zero', eq(E, 0), expect='refuted')
